@@ -125,6 +125,18 @@ class F:
         self._mutated = mut | M._returned_and_written(self.node)
         return IN
 
+    def _closure_defs(self) -> Dict[str, ast.AST]:
+        if getattr(self, "_cdefs", None) is None:
+            self._cdefs = {}
+            par = getattr(self.fi, "parent", None)
+            own = set(self.fi.params) | {n_.id for n_ in walk_local(self.node) if isinstance(n_, ast.Name) and isinstance(n_.ctx, (ast.Store, ast.Del))}
+            while par is not None:
+                for k, v in M.single_defs(par.node).items():
+                    if k not in own and k not in self._cdefs:
+                        self._cdefs[k] = M.expand(par.node, v)
+                par = getattr(par, "parent", None)
+        return self._cdefs
+
     def xe_at(self, idx: int, e: ast.AST, depth: int = 6) -> ast.AST:
         """e with every local whose *unique reaching definition at node idx* is a plain assignment replaced by the
         (recursively expanded) assigned expression; parameters, loop/with targets, objects under construction
@@ -144,6 +156,9 @@ class F:
                 if node.id in outer._params or node.id in outer._mutated:
                     return node
                 rd = IN.get(self.at, {}).get(node.id)
+                if not rd and node.id in outer._closure_defs():
+                    # a free variable of a nested function: the enclosing function's single definition
+                    return ast.copy_location(copy.deepcopy(outer._closure_defs()[node.id]), node)
                 if not rd or len(rd) != 1:
                     return node
                 dn = next(iter(rd))
